@@ -99,6 +99,8 @@ class Baton:
             step += 1
         for th in threads.values():
             th.join()
+        # values of the tasks, by creation order, for oracles that look at intermediate results
+        self.values = [(self.shape[index[k]][0], results[k]) for k in order]
         if failure:
             k = sorted(failure, key=index.get)[0]
             raise failure[k]
